@@ -42,11 +42,11 @@ def burstOps : List FOp := [.send burst, .read, .read, .read, .read, .extract, .
 
 /-- the end-to-end clause without its side condition -/
 def telnet_lines_delivered_Full : Prop :=
-  ∀ ops f, fRun { s := S.init .telnet } ops = .ok f → f.lastNone = true → f.delivered = lines f.received
+  ∀ ops f, fRun (fun _ => .ok) { s := S.init .telnet } ops = .ok f → f.lastNone = true → f.delivered = lines f.received
 
 set_option maxRecDepth 10000000 in
 theorem burst_check :
-    (match fRun { s := S.init .telnet } burstOps with
+    (match fRun (fun _ => .ok) { s := S.init .telnet } burstOps with
      | .ok f => f.lastNone && !f.clean && f.delivered == [[110]] && (lines f.received).length == 425
      | .error _ => false) = true := by
   decide
@@ -54,7 +54,7 @@ theorem burst_check :
 theorem telnet_lines_delivered_Full_false : ¬ telnet_lines_delivered_Full := by
   intro hF
   have hb := burst_check
-  cases hr : fRun { s := S.init .telnet } burstOps with
+  cases hr : fRun (fun _ => .ok) { s := S.init .telnet } burstOps with
   | error e => rw [hr] at hb; cases hb
   | ok f =>
     rw [hr] at hb
